@@ -14,13 +14,19 @@ It provides Function classes.
 import regex
 import functools
 from . import Token
-from .parenthesis import Parenthesis
+from .parenthesis import Parenthesis, _is_closed
+from ..errors import TokenError
 
 
 class Function(Token):
     _re = regex.compile(r'^\s*@?(?P<name>[A-Z_][\w\.]*)\(\s*', regex.IGNORECASE)
 
     def ast(self, tokens, stack, builder, check_n=lambda *args: True):
+        from .operand import Operand
+        if tokens and not self.attr.get('brace_sep') and (
+                isinstance(tokens[-1], Operand) or _is_closed(tokens[-1])
+        ):  # E.g., `=SUM(1)SUM(2)`: two operands with no operator between.
+            raise TokenError()
         super(Function, self).ast(tokens, stack, builder)
         stack.append(self)
         t = Parenthesis('(')
@@ -57,7 +63,7 @@ class Array(Function):
             if self.has_sep:
                 check_n = functools.partial(_check_tkn_n_args, token.get_n_args)
                 token = Function('ARRAY(')
-                token.attr['brace'] = True
+                token.attr['brace'] = token.attr['brace_sep'] = True
                 token.ast(tokens, stack, builder, check_n=check_n)
             else:
                 token = Parenthesis(')')
